@@ -57,6 +57,10 @@ def exception_origin(exc):
     if isinstance(exc, (TypeError, ValueError)) and ("is not JSON serializable" in str(exc) or "Out of range float values" in str(exc)):
         # json.dumps of a document the library produced: the document is at fault, not the harness
         return "library"
+    if isinstance(exc, (TypeError, AttributeError, pickle.PicklingError)) and ("cannot pickle" in str(exc) or "Can't pickle" in str(exc)):
+        # pickle.dumps of an aggregator: the pickler works with what the library's __reduce__ / __getstate__ handed it
+        # (no library frame is on the stack any more when it finds a module among the globals of a function)
+        return "library"
     tb = traceback.extract_tb(exc.__traceback__)
     for fr in tb:
         if os.path.realpath(fr.filename).startswith(_LIBDIR):
@@ -70,6 +74,8 @@ def exc_site(exc):
     site = None
     if "JSON serializable" in str(exc) or "Out of range float values" in str(exc):
         return ("toJson", "strict-json")
+    if "cannot pickle" in str(exc) or "Can't pickle" in str(exc):
+        site = ("pickle", "dumps")
     for fr in tb:
         fn = os.path.realpath(fr.filename)
         if fn.startswith(_LIBDIR):
